@@ -33,8 +33,9 @@ fetched ahead into `inq`, how many and when is decided by an oracle (`World.orc`
 opportunity; the theorems quantify over all oracles) subject to the look-ahead bound
 `lookahead op` = `n + 2` resp. `2 c + 3`.  That bound is **imported**: it is the invariant
 `pulled − handed ≤ capacity + 3` of `fifo_stream` proved as `Fifo.C08_fifo_lookahead` (with
-`capacity = 2·concurrency`, `Fifo.C08_parmap_lookahead`) and, for `Buffer`, worker-in-hand (1) +
-queue (`maxsize`) + consumer-in-hand (1); the concurrency inside these two operators is the
+`capacity = 2·concurrency`, `Fifo.C08_parmap_lookahead`) and, for `Buffer`,
+`Buffer.C08_buffer_lookahead` (`pulled − handed ≤ maxsize + 2`: worker-in-hand 1 + queue `maxsize` +
+consumer-in-hand 1; Props/C08Buffer.lean); the concurrency inside these two operators is the
 business of C01/C05/C08, not of this model.  (The real `parmap` also *applies* `f` ahead of demand,
 in its pool; the model applies it when the consumer takes the element — functions are pure here, so
 the only observable effect of running ahead is the pull counter.)
